@@ -82,6 +82,7 @@ def run_one(ch, env):
     col = fitsgen.draw_collection(ch)
     fmt = ("fits", "npy")[ch.draw(2, kind="tile_format")]
     workers = (2, 1, 3, 4)[ch.draw(4, kind="workers")]
+    scheme = ("L/Y/YX", "LXY")[ch.draw(2, p0=0.75, kind="scheme")]
     d = env.fresh_dir()
     fitsgen.write_collection(col, os.path.join(d, "in"))
     P = fitsgen.pasted_mosaic(col)
@@ -91,7 +92,7 @@ def run_one(ch, env):
     rects = col.rects
     overlapping = any(not (a["r0"] + a["h"] <= b["r0"] or b["r0"] + b["h"] <= a["r0"] or a["c0"] + a["w"] <= b["c0"] or b["c0"] + b["w"] <= a["c0"])
                       for i, a in enumerate(rects) for b in rects[i + 1:])
-    res = {"config": dict(fitsgen.describe(col), tile_format=fmt, workers=workers, tile_levels=levels),
+    res = {"config": dict(fitsgen.describe(col), tile_format=fmt, workers=workers, tile_levels=levels, scheme=scheme),
            "extra": {"fmt_" + fmt: 1, "workers_%d" % workers: 1, "n_images_%d" % len(rects): 1},
            "probes": {"overlapping_inputs": int(overlapping), "mixed_parity": int(len({r["bottom_up"] for r in rects}) == 2),
                       "multi_level": int(levels >= 1)}}
@@ -115,7 +116,7 @@ def run_one(ch, env):
 
     def main():
         coll = collection.load(col.paths)
-        pio = PyramidIO(out1, default_format=fmt)
+        pio = PyramidIO(out1, scheme=scheme, default_format=fmt)
         b = Builder(pio)
         proc = MultiTanProcessor(coll)
         proc.compute_global_pixelization(b)
@@ -140,7 +141,7 @@ def run_one(ch, env):
         return res
 
     # (a) the real single-image route on the pasted mosaic
-    pio2 = PyramidIO(out2, default_format=fmt)
+    pio2 = PyramidIO(out2, scheme=scheme, default_format=fmt)
     b2 = Builder(pio2)
     wcs = fitsgen.mosaic_wcs(col)
     img = Image.from_array(P.copy(), wcs=wcs)
@@ -149,9 +150,9 @@ def run_one(ch, env):
     b2.apply_wcs_info(wcs, col.W, col.H)
     tiling.tile_image(img, pio2)
 
-    pio1 = PyramidIO(out1, default_format=fmt)
-    t1 = list_tiles(out1, fmt)
-    t2 = list_tiles(out2, fmt)
+    pio1 = PyramidIO(out1, scheme=scheme, default_format=fmt)
+    t1 = list_tiles(out1, fmt, scheme)
+    t2 = list_tiles(out2, fmt, scheme)
     tref = {Pos(*k) for k in ref_tiles}
     if t2 != tref:
         res["harness_error"] = "single-image route and numpy cut disagree on the tile set: %s vs %s" % (sorted(t2 - tref), sorted(tref - t2))
